@@ -658,7 +658,40 @@ def rule_no_address_veto(ctx, R="C17/no-address-veto"):
                           "this failure is decided by the address itself (%s)" % "; ".join(bad[:2]))
 
 
+def rule_probing_exhaustive(ctx, R="C17/probing-exhaustive"):
+    """`for every start address of a readable range`: a reader that has not yet settled on a strategy gives up only after ALL of them
+    failed.  process_vm_readv honours page protections (EFAULT on an execute-only or PROT_NONE page), /proc/<pid>/mem and PTRACE_PEEKDATA
+    read with FOLL_FORCE: the fall-backs exist for exactly the ranges the fast path refuses.  So every failure exit of MemReader::read that
+    is reachable with `style == None` lies behind an attempt of each of the three strategies (or the failed open of /proc/<pid>/mem)."""
+    b = ctx.body(R, MR + "::read")
+    if b is None:
+        return
+    o = Origin(b)
+    ex = Exits(b)
+    sets = {"process_vm_readv": [x for x, t in b.calls(lambda c: (c.short or "").endswith("MemReader::vmem"))],
+            "/proc/<pid>/mem": [x for x, t in b.calls(lambda c: (c.short or "").endswith("MemReader::file") or c.short == "std::fs::File::open")],
+            "PTRACE_PEEKDATA": [x for x, t in b.calls(lambda c: (c.short or "").endswith("MemReader::ptrace"))]}
+    n = 0
+    for eb in sorted(ex.err_blocks()):
+        dnf = conditions(b, eb, origin=o, relevant=lambda a: a[0] == "discr" and strip(a[1]) == ("field", ("param", 1), "style"))
+        probing = [c for c in (dnf or []) if any(v == 0 for (_, v) in c)]
+        if not probing:
+            continue
+        n += 1
+        # restrict to the probing region: blocks reachable when style is None = those dominated by the None edge; approximated by
+        # requiring the attempts that are themselves conditioned on style == None
+        missing = []
+        for name, calls in sets.items():
+            pc = [x for x in calls if any(any(v == 0 for (_, v) in c) for c in (conditions(b, x, origin=o, relevant=lambda a: a[0] == "discr" and strip(a[1]) == ("field", ("param", 1), "style")) or []))]
+            if not pc or must_pass(b, 0, {eb}, set(pc)) is not None:
+                missing.append(name)
+        ctx.check(not missing, R, ("gives-up-after-all", n), b.where(eb), "a probing reader fails only after process_vm_readv, /proc/<pid>/mem and PTRACE_PEEKDATA were all tried",
+                  "a probing reader can fail without having tried %s: a range the fast path refuses (execute-only or PROT_NONE page: EFAULT) but the fall-backs can read is reported unreadable" % ", ".join(missing))
+    ctx.floor(R, "failure exits of the probing path", n, 1)
+
+
 def run(ctx):
+    rule_probing_exhaustive(ctx)
     rule_no_address_veto(ctx)
     rule_whole_request(ctx)
     rule_unbuffered(ctx)
